@@ -452,8 +452,8 @@ Section Sem.
     | NType => Some (VPrim PType) | NSubtler => Some (VPrim PSubtler)
     | NOvld => Some (VPrim POvld) | NMap => Some (VPrim PMap) | NCode => Some (VPrim PCode)
     | NSelf => if a_method an then Some (inj mself) else None
-    | NUser i => if is_sym (p_rs p) i then Some (VPrim PRecurse)
-                 else if is_sym (p_cs p) i then Some (VPrim PCallNext)
+    | NUser i => if is_sym (p_cs p) i then Some (VPrim PCallNext)
+                 else if is_sym (p_rs p) i then Some (VPrim PRecurse)
                  else if is_alias p x then Some (VPrim (if reg then PUnusable else PRecurse))
                  else option_map inj (ugl i)
     | NTmp _ _ => None
